@@ -1337,9 +1337,11 @@ def cases_c16(ctx, boost):
     from pymodel import parse
     out = []
     allc = ["000", "001", "010", "011", "100", "101", "110", "111"]
-    if ctx.tier == "quick":
+    if ctx.tier == "quick" and not getattr(ctx, "use_baseline", False):
         pairs = [("000", "111")]
     else:
+        # thorough tier — and the search for a failing input once an obligation has failed: a member gated
+        # on one feature but numbered by another only shows between the mixed configurations
         pairs = [(a, b) for a in allc for b in allc if a != b and cfg_le(a, b)]
     for a, b in pairs:
         # "the same member" is a statement about the source's member names: values are generated from,
